@@ -77,6 +77,9 @@ type leaseFacade struct {
 	// the REPLY of the k-th renewal call can be held back: the call has taken effect in the store, the library
 	// has not seen its result yet
 	delReplyLost int32 // the reply of the next Delete is lost (the Delete itself is applied)
+	holdDel      int32 // the next Delete is held back before it reaches the store
+	delArrived   chan struct{}
+	delGo        chan struct{}
 	holdCasReply int32
 	casApplied   chan struct{}
 	casReplyGo   chan struct{}
@@ -140,6 +143,10 @@ func (f *leaseFacade) CasByVersion(ctx context.Context, r kvs.Record) (kvs.Recor
 func (f *leaseFacade) Delete(ctx context.Context, key string) error {
 	if atomic.LoadInt32(&f.dead) == 1 {
 		return errInjected
+	}
+	if atomic.CompareAndSwapInt32(&f.holdDel, 1, 0) {
+		close(f.delArrived)
+		<-f.delGo
 	}
 	f.s.mu.Lock()
 	err := f.s.backing.Delete(ctx, key)
@@ -350,6 +357,55 @@ func runLeaseScenario(sc leaseScenario) (*leaseSys, bool) {
 		if ok {
 			contender.locker.Unlock()
 		}
+	case "unlockmid":
+		// The renewal call is on its way to the store when Unlock starts; Unlock has reached its Delete (held back)
+		// when the renewal takes effect - and arms the one further attempt (c) allows; then the Delete lands.  The SAME
+		// Locker is locked again and held for three lease periods: the stale attempt fires during the new tenure, finds
+		// nothing of its own, and must leave the new tenure's renewal alone.
+		holder.fac.casArrived, holder.fac.casGo = make(chan struct{}), make(chan struct{})
+		holder.fac.delArrived, holder.fac.delGo = make(chan struct{}), make(chan struct{})
+		atomic.StoreInt32(&holder.fac.holdCas, 1)
+		select {
+		case <-holder.fac.casArrived:
+		case <-time.After(time.Duration(2*ttl)*time.Microsecond + 2*time.Second):
+			s.log(map[string]any{"e": "harness-error", "what": "renewal never issued"})
+			close(holder.fac.casGo)
+			return s, false
+		}
+		atomic.StoreInt32(&holder.fac.holdDel, 1)
+		s.log(map[string]any{"e": "rel", "p": 1})
+		unlocked := make(chan struct{})
+		go func() { holder.locker.Unlock(); close(unlocked) }()
+		select {
+		case <-holder.fac.delArrived:
+		case <-time.After(2 * time.Second):
+			s.log(map[string]any{"e": "harness-error", "what": "Unlock never reached its Delete"})
+			close(holder.fac.casGo)
+			return s, false
+		}
+		close(holder.fac.casGo)
+		time.Sleep(time.Duration(ttl/20) * time.Microsecond)
+		close(holder.fac.delGo)
+		<-unlocked
+		s.log(map[string]any{"e": "unlocked", "p": 1})
+		rctx, rcancel := context.WithTimeout(context.Background(), time.Duration(3*ttl)*time.Microsecond+2*time.Second)
+		err := holder.locker.LockWithCtx(rctx)
+		rcancel()
+		if err != nil {
+			s.log(map[string]any{"e": "reacqfail", "p": 1})
+			break
+		}
+		s.log(map[string]any{"e": "acq", "p": 1})
+		observe(s.now()+3*ttl, true)
+		s.log(map[string]any{"e": "rel", "p": 1})
+		holder.locker.Unlock()
+		s.log(map[string]any{"e": "unlocked", "p": 1})
+		observe(s.now()+2*ttl, false)
+		ok := contender.locker.TryLock(context.Background())
+		s.log(map[string]any{"e": "freetry", "p": 2, "ok": ok})
+		if ok {
+			contender.locker.Unlock()
+		}
 	case "delreplylost":
 		// Unlock's Delete takes effect but its reply is lost; the lock is handed over at once.  Whatever Unlock does
 		// about the error, the new holder's record must stay and nobody else may acquire for well over lease/8.
@@ -397,6 +453,31 @@ func runLeaseScenario(sc leaseScenario) (*leaseSys, bool) {
 		holder.locker.Unlock()
 		s.log(map[string]any{"e": "unlocked", "p": 1})
 		s.probe()
+		if sc.Phase == 3 {
+			// the SAME Locker is locked again while the reply of the first tenure's renewal is still in flight; the reply
+			// then arrives: whatever the old renewal attempt does with it, the new tenure's lease must be kept
+			rctx, rcancel := context.WithTimeout(context.Background(), time.Duration(3*ttl)*time.Microsecond+2*time.Second)
+			err := holder.locker.LockWithCtx(rctx)
+			rcancel()
+			if err != nil {
+				s.log(map[string]any{"e": "reacqfail", "p": 1})
+				close(holder.fac.casReplyGo)
+				break
+			}
+			s.log(map[string]any{"e": "acq", "p": 1})
+			close(holder.fac.casReplyGo)
+			observe(s.now()+5*ttl/2, true)
+			s.log(map[string]any{"e": "rel", "p": 1})
+			holder.locker.Unlock()
+			s.log(map[string]any{"e": "unlocked", "p": 1})
+			observe(s.now()+2*ttl, false)
+			ok := contender.locker.TryLock(context.Background())
+			s.log(map[string]any{"e": "freetry", "p": 2, "ok": ok})
+			if ok {
+				contender.locker.Unlock()
+			}
+			break
+		}
 		if sc.Phase >= 2 {
 			// hand-off while the old tenure's renewal reply is still in flight: the contender acquires and is the holder
 			// under observation when the reply arrives; its record must stay, nobody else may acquire
@@ -663,6 +744,7 @@ func driveLease(opt *Options) error {
 				scs = append(scs, leaseScenario{Kind: "slowreply", TTL: ttl, Periods: k, Phase: 0})
 				scs = append(scs, leaseScenario{Kind: "slowreply", TTL: ttl, Periods: k, Phase: 1})
 				scs = append(scs, leaseScenario{Kind: "slowreply", TTL: ttl, Periods: k, Phase: 2})
+				scs = append(scs, leaseScenario{Kind: "slowreply", TTL: ttl, Periods: k, Phase: 3})
 			}
 		}
 	case "handoff": // C01 under real leases: a caller that waited long acquires and holds
@@ -693,6 +775,8 @@ func driveLease(opt *Options) error {
 			scs = append(scs, leaseScenario{Kind: "hold", TTL: ttl, Periods: 4, Mix: 2})
 			scs = append(scs, leaseScenario{Kind: "handoff", TTL: ttl, Phase: 6, Mix: 2})
 			scs = append(scs, leaseScenario{Kind: "hold", TTL: ttl, Periods: 5, Down: true})
+			scs = append(scs, leaseScenario{Kind: "slowreply", TTL: ttl, Periods: 1, Phase: 3})
+			scs = append(scs, leaseScenario{Kind: "unlockmid", TTL: ttl})
 			// every other renewal call fails transiently, over a long hold
 			scs = append(scs, leaseScenario{Kind: "hold", TTL: ttl, Periods: 10, FaultAt: -1, Fault: "lost"})
 			for ph := 0; ph < 8; ph++ {
